@@ -1,12 +1,16 @@
 //! suite `api` (C10): histories of VM API calls on the four VM kinds.
+#[cfg(not(harness_nostd))]
 use crate::exec::HELPERS;
+#[cfg(harness_nostd)]
+use crate::HELPERS;
 use crate::progen::*;
 use crate::rng::*;
 use std::io::Write;
 
-fn v_accept(_p: &[u8]) -> Result<(), std::io::Error> { Ok(()) }
-fn v_reject(_p: &[u8]) -> Result<(), std::io::Error> { Err(std::io::Error::other("rejected")) }
-fn v_custom(p: &[u8]) -> Result<(), std::io::Error> { if p.len() >= 8 && p[0] == 0xb7 { Ok(()) } else { Err(std::io::Error::other("custom")) } }
+use rbpf::lib::{Error as RErr, ErrorKind as RKind};
+fn v_accept(_p: &[u8]) -> Result<(), RErr> { Ok(()) }
+fn v_reject(_p: &[u8]) -> Result<(), RErr> { Err(RErr::new(RKind::Other, "rejected")) }
+fn v_custom(p: &[u8]) -> Result<(), RErr> { if p.len() >= 8 && p[0] == 0xb7 { Ok(()) } else { Err(RErr::new(RKind::Other, "custom")) } }
 fn calc(_prog: &[u8], _pc: usize, _d: &mut dyn std::any::Any) -> u16 { 64 }
 
 enum Vm<'a> { Mbuff(rbpf::EbpfVmMbuff<'a>), Raw(rbpf::EbpfVmRaw<'a>), NoData(rbpf::EbpfVmNoData<'a>), Fixed(rbpf::EbpfVmFixedMbuff<'a>) }
@@ -28,9 +32,12 @@ pub fn run(t: &[&str]) -> String {
             "fixed" => match rbpf::EbpfVmFixedMbuff::new(ip, 0, 8) { Ok(v) => Vm::Fixed(v), Err(_) => return "new-err".into() },
             _ => match rbpf::EbpfVmMbuff::new(ip) { Ok(v) => Vm::Mbuff(v), Err(_) => return "new-err".into() },
         };
+        // no_std build: the x86-64 JIT writes into caller-supplied executable memory
+        #[cfg(harness_nostd)]
+        { each!(&mut vm, v => { let _ = v.set_jit_exec_memory(crate::exec_mem_shared()); }) }
         let mut outs: Vec<String> = vec![];
-        let res = |r: Result<(), std::io::Error>| if r.is_ok() { "ok".to_string() } else { "err".to_string() };
-        let val = |r: Result<u64, std::io::Error>| match r { Ok(v) => format!("v{:016x}", v), Err(_) => "err".to_string() };
+        let res = |r: Result<(), RErr>| if r.is_ok() { "ok".to_string() } else { "err".to_string() };
+        let val = |r: Result<u64, RErr>| match r { Ok(v) => format!("v{:016x}", v), Err(_) => "err".to_string() };
         for op in &ops {
             let f: Vec<&str> = op.split(':').collect();
             let o = match f[0] {
@@ -41,11 +48,21 @@ pub fn run(t: &[&str]) -> String {
                 "rh" => { let (Some(id), Some(fi)) = (f.get(1).and_then(|s| u32::from_str_radix(s, 16).ok()), f.get(2).and_then(|s| s.parse::<usize>().ok())) else { return "bad-op".into() };
                     each!(&mut vm, v => res(v.register_helper(id, HELPERS[fi % 4]))) }
                 "sc" => each!(&mut vm, v => res(v.set_stack_usage_calculator(calc, Box::new(())))),
+                #[cfg(not(harness_nostd))]
                 "jc" => each!(&mut vm, v => res(v.jit_compile())),
+                // no_std: jit_compile consumes the executable memory the caller supplied; supply it again for each compilation
+                #[cfg(harness_nostd)]
+                "jc" => each!(&mut vm, v => { let _ = v.set_jit_exec_memory(crate::exec_mem_shared()); res(v.jit_compile()) }),
+                #[cfg(not(harness_nostd))]
                 "cc" => each!(&mut vm, v => res(v.cranelift_compile())),
                 "x" => { let mut m: [u8; 0] = []; let mut b: [u8; 0] = [];
                     let mr: &mut [u8] = unsafe { std::slice::from_raw_parts_mut(m.as_mut_ptr(), 0) }; let br: &mut [u8] = unsafe { std::slice::from_raw_parts_mut(b.as_mut_ptr(), 0) };
                     match &mut vm { Vm::Mbuff(v) => val(v.execute_program(mr, br)), Vm::Raw(v) => val(v.execute_program(mr)), Vm::NoData(v) => val(v.execute_program()), Vm::Fixed(v) => val(v.execute_program(mr)) } }
+                #[cfg(harness_nostd)]
+                "xj" => { let mut m: [u8; 0] = []; let mut b: [u8; 0] = [];
+                    let mr: &mut [u8] = unsafe { std::slice::from_raw_parts_mut(m.as_mut_ptr(), 0) }; let br: &mut [u8] = unsafe { std::slice::from_raw_parts_mut(b.as_mut_ptr(), 0) };
+                    unsafe { match &mut vm { Vm::Mbuff(v) => val(v.execute_program_jit(mr, br)), Vm::Raw(v) => val(v.execute_program_jit(mr)), Vm::NoData(v) => val(v.execute_program_jit()), Vm::Fixed(v) => val(v.execute_program_jit(mr)) } } }
+                #[cfg(not(harness_nostd))]
                 "xj" | "xc" => { let mut m: [u8; 0] = []; let mut b: [u8; 0] = [];
                     let mr: &mut [u8] = unsafe { std::slice::from_raw_parts_mut(m.as_mut_ptr(), 0) }; let br: &mut [u8] = unsafe { std::slice::from_raw_parts_mut(b.as_mut_ptr(), 0) };
                     let j = f[0] == "xj";
